@@ -34,8 +34,8 @@ def sym_model(name):
                     t = a * dx[j]
                     row = t if row is None else row + t
                 row = (row if row is not None else S.Sym(0)) - b[i]
-                eqs.append(row)
-                st.hyps.append(("eq", row))
+                eqs.append(row)      # kept as ghost state for the obligations (system_equiv / using=...); deliberately NOT
+                                     # added to the SMT hypotheses: path feasibility never depends on them
             return symnp.array(dx)
         return model
     if name == "fault":
